@@ -199,6 +199,19 @@ def rule_step(ctx):
                         bad += 1
                     if n % 97 == 1:
                         ctx.sample({"rule": "C09.STEP", "row": row, "after": dict(zip(NAMES, after))})
+                    # a fault while the update is being published (a client connection failing) must not leave a
+                    # rule-violating state behind either: same row, with the publication made to raise
+                    fpaths = explore(p, run, {"inline": pol, "assert_forks": True, "max_depth": 8, "call_may_raise": lambda ev: "ConnectionError" if is_call(ev.data["term"], method="send_message") else None})
+                    ctx.paths_enumerated += len(fpaths)
+                    for fp in fpaths:
+                        if fp.outcome != "raise":
+                            continue
+                        fafter = _state(fp.interp.els)
+                        non, non_before = sum(1 for v in fafter if v == ON), sum(1 for v in config if v == ON)
+                        broken = (rule == "OneOfMany" and non_before == 1 and non != 1) or (rule in ("OneOfMany", "AtMostOne") and non_before <= 1 and non > 1) or (rule == "AnyOfMany" and any(a != b for j, (a, b) in enumerate(zip(fafter, config)) if j != idx))
+                        if broken:
+                            ctx.violated("C09.STEP", setter.short, f"[{row}] with the publication failing leaves {dict(zip(NAMES, fafter))}: a delivery fault during the update leaves a state that violates the {rule} rule", fi=setter, text=f"fault:{rule}:{written}", witness=row + " ; send_message raises")
+                            bad += 1
     ctx.counters["C09.STEP:rows"] = n
     if not bad:
         ctx.holds("C09.STEP", setter.short, f"{n} rows (3 rules x 8 states x 3 switches x 4 written values) agree with the rule table; publication after all stores", fi=setter)
@@ -423,7 +436,7 @@ def rule_gate(ctx):
             if isinstance(node, ast.Call) and isinstance(node.func, ast.Name) and node.func.id == "setattr" and len(node.args) >= 2 and isinstance(node.args[1], ast.Constant) and node.args[1].value == VAL:
                 n += 1
                 ctx.violated("C09.GATE", fi.short, "setattr(..., '_value', ...) bypasses the switch rule", fi=fi, node=node)
-    ctx.floor("C09.GATE", "_value stores", n, 5)
+    ctx.floor("C09.GATE", "_value stores", n, 2)
     # reset_* are not reachable from the property's operations
     ops = []
     sv, sw = _classes(p)
